@@ -98,7 +98,14 @@ func errClass(err error) string {
 	case strings.Contains(m, "unexpected end of JSON") || strings.HasPrefix(m, "json:") || strings.HasPrefix(m, "invalid character"):
 		return "json"
 	}
-	return "other:" + strings.ReplaceAll(strings.ReplaceAll(m, " ", "_"), "\t", "_")
+	// unknown error text: keep a short, stable prefix (no addresses / values in histogram keys)
+	if i := strings.IndexAny(m, ":0123456789"); i >= 0 {
+		m = m[:i]
+	}
+	if len(m) > 40 {
+		m = m[:40]
+	}
+	return "other:" + strings.ReplaceAll(strings.TrimSpace(m), " ", "_")
 }
 
 type scAddr struct {
